@@ -21,38 +21,42 @@ TrReset ==
   /\ LET c == [i \in 1..Len(E.cfg) |-> FieldRec(E.cfg[i])] IN c \in Configs /\ cfg' = c
   /\ last' = [op |-> "new"] /\ UNCHANGED <<vals, nops, ftype>>
 
+(* every action of Form.tla takes what the operation returned as a parameter and decides whether it is acceptable *)
 TVOf(x) == TV(x.k, x.v)
 TrSet ==
   /\ IsEv("set") /\ E.var \in Vars /\ TVOf(E.tv) \in SetValues
-  /\ Set(E.var, TVOf(E.tv))
-  /\ last'.ok = E.ok /\ last'.err = E.err
-TrGet ==
-  /\ IsEv("get") /\ E.var \in Vars /\ Get(E.var)
-  /\ last'.ok = E.ok /\ (E.ok => last'.tv = TVOf(E.tv))
-TrRaw ==
-  /\ IsEv("raw") /\ E.var \in Vars /\ Raw(E.var)
-  /\ last'.ok = E.ok /\ (E.ok => last'.v = E.v)
-(* the submission as the driver decoded it: [var, vals] per field, in order *)
-TrSubmit ==
-  /\ IsEv("submit") /\ Submit
+  /\ Set(E.var, TVOf(E.tv), E.err)
   /\ last'.ok = E.ok
+TrGet ==
+  /\ IsEv("get") /\ E.var \in Vars /\ Get(E.var, IF E.ok THEN TVOf(E.tv) ELSE NoVal)
+  /\ Holds(E.ok => TVOf(E.tv) # NoVal)
+TrRaw ==
+  /\ IsEv("raw") /\ E.var \in Vars /\ Raw(E.var, IF E.ok THEN E.v ELSE <<>>)
+  /\ last'.ok = E.ok
+(* the submission as the driver decoded it: [var, ft, vals] per field, in order: the fields of the form it names, *)
+(* each with an acceptable value list (no demand on the fields of an ambiguous name)                              *)
+TrSubmit ==
+  /\ IsEv("submit")
+  /\ \E idx \in Asc(1, Len(cfg)) :
+       /\ Len(idx) = Len(E.fields)
+       /\ Holds(\A k \in 1..Len(idx) :
+                   /\ E.fields[k].var = cfg[idx[k]].var /\ E.fields[k].ft = cfg[idx[k]].ft
+                   /\ Free(cfg, idx[k]) \/ E.fields[k].vals \in SubmitAcc(cfg, vals, cfg[idx[k]]))
+       /\ Submit(E.ok, idx)
+  /\ last'.op = "submit"
   /\ Accepts(E.toks)
   /\ E.type = <<"submit">>                                \* whatever the type of the form it was made from
-  /\ Len(E.fields) = Len(last'.fields)
-  /\ \A i \in 1..Len(E.fields) :
-       /\ E.fields[i].var = last'.fields[i].var /\ E.fields[i].ft = last'.fields[i].ft
-       /\ E.fields[i].vals \in SubmitAcc(cfg, vals, last'.fields[i])
 (* the form's own encoding is well-formed and carries the form's type (one of the four) *)
 TrEncode == /\ IsEv("tokenreader") /\ Encode /\ Accepts(E.toks)
             /\ (ftype \in ValidTypes => E.type = DocTypeAttr[ftype])
 (* the driver decoded the form's own encoding with the type attribute DocTypeAttr[E.ty] *)
 TrUnmarshal ==
   /\ IsEv("unmarshal") /\ E.ty \in FormTypes
-  /\ IF E.err = "" THEN /\ Unmarshal(E.ty)
-                         /\ [i \in 1..Len(E.fields) |-> FieldRec(E.fields[i])] = cfg'
+  /\ IF E.err = "" THEN Unmarshal(E.ty, [i \in 1..Len(E.fields) |-> FieldRec(E.fields[i])])
      ELSE UnmarshalRefused(E.ty)
 
 Inv == C19_StoredFits /\ C19_SetIffFits /\ C19_GetAfterSet /\ C19_GetReportsIt /\ C19_SubmitShape /\ C19_DecodedFormsUsable
+       /\ C19_SubmitLossless /\ C19_NoPanic
 
 TNext ==
   /\ l < EndOf(t0)
